@@ -299,12 +299,37 @@ theorem eval_iff_of_check (w : Nat) (f : F) (doc : List Pfx)
 
 /-! ### dispatch -/
 
-theorem D.eval_reach (x : Addr) (d : D) : d.eval x = (d.reach x.kind).eval x := by
+theorem Addr.unmap_of_ne (x : Addr) (h : x.kind ≠ .v4in6) : x.unmap = x := by
+  cases x with
+  | v6 a z =>
+    by_cases h' : a.toNat / 2 ^ 32 = 0xffff
+    · simp [Addr.kind, h'] at h
+    · simp [Addr.unmap, h']
+  | _ => rfl
+
+theorem Addr.kind_unmap_of (x : Addr) (h : x.kind = .v4in6) : x.unmap.kind = .v4 := by
+  cases x with
+  | v6 a z =>
+    by_cases h' : a.toNat / 2 ^ 32 = 0xffff
+    · simp [Addr.unmap, h', Addr.kind]
+    · simp [Addr.kind, h'] at h
+  | _ => simp [Addr.kind] at h
+
+theorem D.eval_reach (d : D) : ∀ x : Addr, d.eval x = (d.reach x.kind).eval x := by
   induction d with
   | ite c t e iht ihe =>
+    intro x
     simp only [D.eval, D.reach]
-    split <;> assumption
-  | _ => rfl
+    split
+    · exact iht x
+    · exact ihe x
+  | unmap d ih =>
+    intro x
+    simp only [D.eval, D.reach]
+    split
+    · next h => rw [D.eval, ih x.unmap, Addr.kind_unmap_of x h]
+    · next h => rw [Addr.unmap_of_ne x h]; exact ih x
+  | _ => intro x; rfl
 
 /-- the obligations a regenerated dispatcher and its two byte predicates must meet -/
 structure Obligations (d : D) (f4 f6 : F) (doc : List Pfx) : Prop where
@@ -319,7 +344,7 @@ structure Obligations (d : D) (f4 f6 : F) (doc : List Pfx) : Prop where
 
 theorem Obligations.eval_eq {d : D} {f4 f6 : F} {doc : List Pfx} (o : Obligations d f4 f6 doc)
     (x : Addr) : ∃ b, d.eval x = .ok b ∧ (b = true ↔ x.InDoc doc) := by
-  rw [D.eval_reach]
+  rw [D.eval_reach d x]
   cases x with
   | invalid => exact ⟨false, by simp [Addr.kind, o.invalid, D.eval], by simp [Addr.InDoc]⟩
   | v4 a =>
